@@ -44,8 +44,8 @@ func (t ScopeType) String() string {
 	return "unknown"
 }
 
-func (t *ScopeType) MarshalJSON() ([]byte, error) {
-	switch *t {
+func (t ScopeType) MarshalJSON() ([]byte, error) {
+	switch t {
 	case UserScopeType:
 		return []byte("\"user_scope\""), nil
 	}
